@@ -176,6 +176,11 @@ func DistMatrix(al align.Alignment, weights []float64, model DistModel, range1Mi
 					return
 				}
 				for j := range2Min; j <= range2Max; j++ {
+					// If the two ranges overlap, the pair (j,i) is also visited:
+					// it is computed only once (both cells are filled anyway)
+					if j < i && j >= range1Min && j <= range1Max && i >= range2Min && i <= range2Max {
+						continue
+					}
 					if j != i {
 						if seq2, perr = model.Sequence(j); perr != nil {
 							verifhook.At("dm.p.err", i, j)
